@@ -88,7 +88,7 @@ func (c *Check) signalFrameThreshold() {
 	}
 	n := 0
 	var blocks []*ssa.BasicBlock
-	for _, g := range withHelpers(f, 2) {
+	for _, g := range withHelpers(f, 3) {
 		blocks = append(blocks, g.Blocks...)
 	}
 	for _, b := range blocks {
@@ -97,7 +97,8 @@ func (c *Check) signalFrameThreshold() {
 			if !ok || cmp.Op != token.GEQ {
 				continue
 			}
-			sub, ok := cmp.Y.(*ssa.BinOp)
+			// the bound may be computed by the caller and handed in
+			sub, ok := argOfParam(p, cmp.Y, 0).(*ssa.BinOp)
 			if !ok || sub.Op != token.SUB {
 				continue
 			}
